@@ -535,4 +535,580 @@ theorem attempts_le (p : Params) (evs : List Ev) : (run p init evs).acts.length 
   simp only [potential] at *
   omega
 
+
+/-- every evaluated parameter passes its schema type check -/
+def Params.wellTyped (p : Params) : Bool :=
+  p.waitBefore.valid && p.waitAfter.valid && p.timeout.valid && p.concurrency.valid &&
+  (match p.pauseBefore with | .bool _ => true | .other _ => false) &&
+  (match p.retry with | none => true | some r => r.count.valid && r.delay.valid)
+
+def waitAfterStep (p : Params) (s : S) : S :=
+  if p.waitAfter.nat = 0 then s
+  else if s.waSkip then s
+  else schedule { s with waSkip := true, st := .delayed, msg := .waitAfter } (.complete s.st s.msg) p.waitAfter.nat
+
+def failOnStep (p : Params) (s : S) : S :=
+  if s.st = .success ∧ p.failOn.truthy then { s with st := .error, msg := .failOn } else s
+
+def retryStep (p : Params) (s : S) : S :=
+  match p.retry with
+  | none => s
+  | some r =>
+    if r.count.nat = 0 then s
+    else if !isCompleted s.st then s
+    else if retryApplies r s.retryNo s.st (evalFlags s.acts).1 (evalFlags s.acts).2 then
+      schedule { s with acts := invalidate s.acts, retryNo := s.retryNo + 1, st := .delayed, msg := .retry } .cont r.delay.nat
+    else s
+
+theorem afterAll_unfold (p : Params) (s : S) :
+    afterAll p s = (afterOne p .pauseBefore s).bind fun s => (afterOne p .waitBefore s).bind fun s =>
+      (afterOne p .waitAfter s).bind fun s => (afterOne p .failOn s).bind fun s => (afterOne p .retry s).bind fun s =>
+      (afterOne p .timeout s).bind fun s => (afterOne p .concurrency s).bind fun s => .ok s := rfl
+
+/-- ORDER-DEPENDENT closed form of the `after_task_complete` pass for well-typed parameters:
+    wait-after, then fail-on, then retry. -/
+theorem afterAll_wellTyped (p : Params) (hw : p.wellTyped = true) (s : S) :
+    afterAll p s = .ok (retryStep p (failOnStep p (waitAfterStep p s))) := by
+  rw [afterAll_unfold]
+  simp only [Params.wellTyped, Bool.and_eq_true] at hw
+  obtain ⟨⟨⟨⟨⟨h1, h2⟩, h3⟩, h4⟩, h5⟩, h6⟩ := hw
+  have e1 : ∀ s, afterOne p .pauseBefore s = .ok s := by
+    intro s; cases hp : p.pauseBefore <;> simp [afterOne, checkPause, hp] <;> simp [hp] at h5
+  have e2 : ∀ s, afterOne p .waitBefore s = .ok s := by intro s; simp [afterOne, check, h1]
+  have e3 : ∀ s, afterOne p .waitAfter s = .ok (waitAfterStep p s) := by
+    intro s; simp only [afterOne, check, h2, if_true, R.bind, waitAfterStep]
+    split
+    · rfl
+    · split <;> rfl
+  have e4 : ∀ s, afterOne p .failOn s = .ok (failOnStep p s) := by
+    intro s; simp only [afterOne, failOnStep]; split <;> rfl
+  have e5 : ∀ s, afterOne p .retry s = .ok (retryStep p s) := by
+    intro s
+    simp only [afterOne, checkRetry, retryStep]
+    cases hr : p.retry with
+    | none => rfl
+    | some r =>
+      simp only [hr] at h6
+      simp only [h6, if_true, R.bind]
+      split
+      · rfl
+      · split
+        · rfl
+        · split <;> rfl
+  have e6 : ∀ s, afterOne p .timeout s = .ok s := by intro s; simp [afterOne, check, h3]
+  have e7 : ∀ s, afterOne p .concurrency s = .ok s := by intro s; simp [afterOne, check, h4]
+  simp only [e1, e2, e3, e4, e5, e6, e7, R.bind]
+
+/-- `Task.complete` for well-typed parameters on a task that is not completed yet. -/
+def settle (p : Params) (s2 : S) : S :=
+  if s2.st = .delayed then s2
+  else if s2.wf = .paused then s2
+  else if s2.wf = .running then { s2 with processed := true, followUps := s2.followUps + follows p s2.st }
+  else { s2 with processed := true }
+
+theorem completeTask_wellTyped (p : Params) (hw : p.wellTyped = true) (s : S) (st : TSt) (m : Msg)
+    (hc : isCompleted s.st = false) :
+    completeTask p s st m = settle p (retryStep p (failOnStep p (waitAfterStep p { s with st := st, msg := m }))) := by
+  simp only [completeTask, hc, afterAll_wellTyped p hw, settle, Bool.false_eq_true, if_false]
+
+
+
+/-- the wait-after branch of `Task.complete`: nothing but the postponement happens -/
+theorem complete_waitAfter (p : Params) (hw : p.wellTyped = true) (s : S) (st : TSt) (m : Msg)
+    (hc : isCompleted s.st = false) (hd : p.waitAfter.nat ≠ 0) (hs : s.waSkip = false) :
+    completeTask p s st m =
+      schedule { s with st := .delayed, msg := .waitAfter, waSkip := true } (.complete st m) p.waitAfter.nat := by
+  rw [completeTask_wellTyped p hw s st m hc]
+  have e1 : waitAfterStep p { s with st := st, msg := m } =
+      schedule { s with st := .delayed, msg := .waitAfter, waSkip := true } (.complete st m) p.waitAfter.nat := by
+    simp [waitAfterStep, hd, hs]
+  rw [e1]
+  have e2 : ∀ x : S, x.st = .delayed → failOnStep p x = x := by
+    intro x hx; simp [failOnStep, hx]
+  have e3 : ∀ x : S, x.st = .delayed → retryStep p x = x := by
+    intro x hx; simp only [retryStep]; cases p.retry <;> simp [hx, isCompleted]
+  have e4 : ∀ x : S, x.st = .delayed → settle p x = x := by
+    intro x hx; simp [settle, hx]
+  rw [e2 _ rfl, e3 _ rfl, e4 _ rfl]
+
+/-- without a pending wait-after: fail-on, then the retry decision, then the follow-ups -/
+theorem complete_noWait (p : Params) (hw : p.wellTyped = true) (s : S) (st : TSt) (m : Msg)
+    (hc : isCompleted s.st = false) (hd : p.waitAfter.nat = 0 ∨ s.waSkip = true) :
+    completeTask p s st m = settle p (retryStep p (failOnStep p { s with st := st, msg := m })) := by
+  rw [completeTask_wellTyped p hw s st m hc]
+  have e1 : waitAfterStep p { s with st := st, msg := m } = { s with st := st, msg := m } := by
+    cases hd with
+    | inl h => simp [waitAfterStep, h]
+    | inr h => simp [waitAfterStep, h]
+  rw [e1]
+
+/-- when the retry policy does not apply, `retryStep` is the identity -/
+theorem retryStep_stop (p : Params) (s : S)
+    (h : ∀ r, p.retry = some r → r.count.nat ≠ 0 → isCompleted s.st = true →
+          retryApplies r s.retryNo s.st (evalFlags s.acts).1 (evalFlags s.acts).2 = false) :
+    retryStep p s = s := by
+  simp only [retryStep]
+  cases hr : p.retry with
+  | none => rfl
+  | some r =>
+    simp only []
+    by_cases h0 : r.count.nat = 0
+    · simp [h0]
+    · by_cases hcst : isCompleted s.st = true
+      · simp [h0, hcst, h r hr h0 hcst]
+      · simp [h0, hcst]
+
+theorem retryStep_go (p : Params) (r : Retry) (s : S) (hr : p.retry = some r) (h0 : r.count.nat ≠ 0)
+    (hc : isCompleted s.st = true)
+    (h : retryApplies r s.retryNo s.st (evalFlags s.acts).1 (evalFlags s.acts).2 = true) :
+    retryStep p s = schedule { s with acts := invalidate s.acts, retryNo := s.retryNo + 1, st := .delayed, msg := .retry }
+                      .cont r.delay.nat := by
+  simp [retryStep, hr, h0, hc, h]
+
+theorem settle_fields (p : Params) (s : S) :
+    (settle p s).st = s.st ∧ (settle p s).msg = s.msg ∧ (settle p s).jobs = s.jobs ∧ (settle p s).acts = s.acts ∧
+    (settle p s).retryNo = s.retryNo ∧ (settle p s).now = s.now ∧ (settle p s).wf = s.wf := by
+  simp only [settle]; (repeat' split) <;> simp
+
+
+
+/-- the due time a job of that kind must have when scheduled at `now` -/
+def okDue (p : Params) (now : Nat) (j : Job) : Prop :=
+  match j.kind with
+  | .cont => j.dueAt = now + p.waitBefore.nat ∨ ∃ r, p.retry = some r ∧ j.dueAt = now + r.delay.nat
+  | .complete _ _ => j.dueAt = now + p.waitAfter.nat
+  | .timeout => j.dueAt = now + p.timeout.nat
+
+structure JobsRel (p : Params) (s s2 : S) : Prop where
+  now : s2.now = s.now
+  mem : ∀ j ∈ s2.jobs, j ∈ s.jobs ∨ okDue p s.now j
+
+theorem JobsRel.refl (p : Params) (s : S) : JobsRel p s s := ⟨rfl, fun _ h => Or.inl h⟩
+
+theorem JobsRel.of_jobs_eq {p : Params} {s s2 : S} (hn : s2.now = s.now) (hj : s2.jobs = s.jobs) : JobsRel p s s2 :=
+  ⟨hn, fun j h => Or.inl (by rw [← hj]; exact h)⟩
+
+theorem JobsRel.trans {p : Params} {a b c : S} (h1 : JobsRel p a b) (h2 : JobsRel p b c) : JobsRel p a c := by
+  refine ⟨by rw [h2.now, h1.now], fun j hj => ?_⟩
+  cases h2.mem j hj with
+  | inl h => exact h1.mem j h
+  | inr h => right; rw [h1.now] at h; exact h
+
+theorem JobsRel.schedule (p : Params) (s : S) (k : JobKind) (d : Nat) (h : okDue p s.now ⟨k, s.now + d⟩) :
+    JobsRel p s (schedule s k d) := by
+  refine ⟨rfl, fun j hj => ?_⟩
+  simp only [Policy.schedule, List.mem_append, List.mem_singleton] at hj
+  cases hj with
+  | inl h' => exact Or.inl h'
+  | inr h' => right; rw [h']; exact h
+
+theorem JobsRel.schedule' (p : Params) (s s0 : S) (k : JobKind) (d : Nat) (hn : s0.now = s.now) (hj : s0.jobs = s.jobs)
+    (h : okDue p s.now ⟨k, s.now + d⟩) : JobsRel p s (Policy.schedule s0 k d) := by
+  refine ⟨hn, fun j hj' => ?_⟩
+  simp only [Policy.schedule, List.mem_append, List.mem_singleton] at hj'
+  cases hj' with
+  | inl h' => exact Or.inl (by rw [← hj]; exact h')
+  | inr h' => right; rw [h', hn]; exact h
+
+theorem beforeOne_jobs (p : Params) (k : PolicyKind) (s : S) : JobsRel p s (beforeOne p k s).state := by
+  cases k <;> simp only [beforeOne, check, checkPause, checkRetry]
+  all_goals (repeat' (first | split | simp only [R.bind]))
+  all_goals first
+    | exact JobsRel.refl _ _
+    | exact JobsRel.of_jobs_eq rfl rfl
+    | skip
+  · exact JobsRel.schedule' p s _ _ _ rfl rfl (Or.inl rfl)
+  · exact JobsRel.schedule' p s _ _ _ rfl rfl rfl
+
+theorem afterOne_jobs (p : Params) (k : PolicyKind) (s : S) : JobsRel p s (afterOne p k s).state := by
+  cases k
+  case retry =>
+    simp only [afterOne, checkRetry]
+    cases hr : p.retry with
+    | none => exact JobsRel.refl _ _
+    | some r =>
+      simp only []
+      split
+      · simp only [R.bind]
+        split
+        · exact JobsRel.refl _ _
+        · split
+          · exact JobsRel.refl _ _
+          · split
+            · exact JobsRel.schedule' p s _ _ _ rfl rfl (Or.inr ⟨r, hr, rfl⟩)
+            · exact JobsRel.refl _ _
+      · exact JobsRel.refl _ _
+  case waitAfter =>
+    simp only [afterOne, check]
+    split
+    · simp only [R.bind]
+      split
+      · exact JobsRel.refl _ _
+      · split
+        · exact JobsRel.refl _ _
+        · exact JobsRel.schedule' p s _ _ _ rfl rfl rfl
+    · exact JobsRel.refl _ _
+  all_goals
+    simp only [afterOne, check, checkPause]
+    (repeat' split) <;> first | exact JobsRel.refl _ _ | exact JobsRel.of_jobs_eq rfl rfl
+
+theorem runHooks_jobs (p : Params) (f : PolicyKind → S → R) (hf : ∀ k s, JobsRel p s (f k s).state)
+    (ks : List PolicyKind) (s : S) : JobsRel p s (runHooks f ks s).state := by
+  induction ks generalizing s with
+  | nil => exact JobsRel.refl _ _
+  | cons k ks ih =>
+    simp only [runHooks]
+    have h1 := hf k s
+    cases h : f k s with
+    | ok s1 => rw [h] at h1; simp only [R.state] at h1; simp only [R.bind]; exact h1.trans (ih s1)
+    | raise s1 => rw [h] at h1; simpa [R.bind] using h1
+
+theorem completeTask_jobs (p : Params) (s : S) (st : TSt) (m : Msg) : JobsRel p s (completeTask p s st m) := by
+  simp only [completeTask]
+  split
+  · exact JobsRel.refl _ _
+  · have h := runHooks_jobs p (afterOne p) (afterOne_jobs p) Gen.PolicyOrder.order { s with st := st, msg := m }
+    have h0 : JobsRel p s { s with st := st, msg := m } := JobsRel.of_jobs_eq rfl rfl
+    change JobsRel p _ (afterAll p { s with st := st, msg := m }).state at h
+    cases hr : afterAll p { s with st := st, msg := m } with
+    | raise s2 =>
+      rw [hr] at h; simp only [R.state] at h
+      exact (h0.trans h).trans (JobsRel.of_jobs_eq rfl rfl)
+    | ok s2 =>
+      rw [hr] at h; simp only [R.state] at h
+      simp only []
+      (repeat' split) <;> first | exact h0.trans h | exact (h0.trans h).trans (JobsRel.of_jobs_eq rfl rfl)
+
+theorem launch_jobs (p : Params) (s : S) : JobsRel p s (launch p s) := by
+  simp only [launch]
+  have h := runHooks_jobs p (beforeOne p) (beforeOne_jobs p) Gen.PolicyOrder.order { s with st := .running }
+  have h0 : JobsRel p s { s with st := .running } := JobsRel.of_jobs_eq rfl rfl
+  change JobsRel p _ (beforeAll p { s with st := .running }).state at h
+  cases hr : beforeAll p { s with st := .running } with
+  | raise s2 =>
+    rw [hr] at h; simp only [R.state] at h
+    exact (h0.trans h).trans (JobsRel.of_jobs_eq rfl rfl)
+  | ok s2 =>
+    rw [hr] at h; simp only [R.state] at h
+    by_cases hrun : s2.st = .running
+    · by_cases hx : p.execTimeoutRaises = true
+      · simp only [hrun, if_true, scheduleAction, hx]
+        exact JobsRel.of_jobs_eq rfl rfl
+      · simp only [hrun, if_true, scheduleAction, hx]
+        exact (h0.trans h).trans (JobsRel.of_jobs_eq rfl rfl)
+    · simp only [hrun, if_false]
+      exact h0.trans h
+
+theorem mem_of_mem_eraseIdx' {l : List Job} {i : Nat} {j : Job} (h : j ∈ l.eraseIdx i) : j ∈ l :=
+  List.mem_of_mem_eraseIdx h
+
+theorem step_jobs (p : Params) (s : S) (e : Ev) : ∀ j ∈ (step p s e).jobs, j ∈ s.jobs ∨ okDue p s.now j := by
+  cases e with
+  | startNew =>
+    simp only [step, startNew]
+    split
+    · split
+      · have h := launch_jobs p { s with pendingNew := false }
+        exact h.mem
+      · exact fun j h => Or.inl h
+    · exact fun j h => Or.inl h
+  | startExisting =>
+    have : (step p s .startExisting).jobs = s.jobs := by
+      simp only [step]
+      by_cases hpe : s.pendingExisting = true
+      · by_cases hs : s.st = .success
+        · simp [startExisting, hpe, hs]
+        · by_cases hx : p.execTimeoutRaises = true
+          · simp [startExisting, hpe, hs, hx, scheduleAction, crash]
+          · by_cases hr : s.st = .running ∧ s.msg = .none
+            · simp [startExisting, hpe, hs, hx, hr, scheduleAction, setRunningExisting]
+            · simp [startExisting, hpe, hs, hx, hr, scheduleAction, setRunningExisting]
+      · simp [startExisting, hpe]
+    rw [this]; exact fun j h => Or.inl h
+  | result i o c b =>
+    simp only [step, result]
+    split
+    · exact fun j h => Or.inl h
+    · split
+      · exact fun j h => Or.inl h
+      · exact (completeTask_jobs p _ _ _).mem
+  | fire idx =>
+    simp only [step, fire]
+    split
+    · exact fun j h => Or.inl h
+    · split
+      · exact fun j h => Or.inl h
+      · have hsub : ∀ j ∈ ({ s with jobs := s.jobs.eraseIdx idx } : S).jobs, j ∈ s.jobs :=
+          fun j h => mem_of_mem_eraseIdx' h
+        split
+        · intro j hj
+          have : (continueTask p { s with jobs := s.jobs.eraseIdx idx }).jobs = s.jobs.eraseIdx idx := by
+            by_cases hx : p.execTimeoutRaises = true <;> simp [continueTask, scheduleAction, crash, hx]
+          rw [this] at hj; exact Or.inl (mem_of_mem_eraseIdx' hj)
+        · intro j hj
+          cases (completeTask_jobs p { s with jobs := s.jobs.eraseIdx idx } _ _).mem j hj with
+          | inl h => exact Or.inl (hsub j h)
+          | inr h => exact Or.inr h
+        · split
+          · exact fun j h => Or.inl (hsub j h)
+          · intro j hj
+            cases (completeTask_jobs p { s with jobs := s.jobs.eraseIdx idx } _ _).mem j hj with
+            | inl h => exact Or.inl (hsub j h)
+            | inr h => exact Or.inr h
+  | tick dt => exact fun j h => Or.inl h
+  | resume =>
+    have : (step p s .resume).jobs = s.jobs := by
+      simp only [step, resume]; (repeat' split) <;> rfl
+    rw [this]; exact fun j h => Or.inl h
+  | wfDone =>
+    have : (step p s .wfDone).jobs = s.jobs := by
+      simp only [step]; split <;> rfl
+    rw [this]; exact fun j h => Or.inl h
+
+
+
+theorem bind_ok {r : R} {f : S → R} {y : S} (h : r.bind f = .ok y) : ∃ z, r = .ok z ∧ f z = .ok y := by
+  cases r with
+  | ok z => exact ⟨z, rfl, h⟩
+  | raise z => simp [R.bind] at h
+
+theorem check_ok {v : PVal} {s y : S} (h : check v s = .ok y) : v.valid = true := by
+  simp only [check] at h; split at h
+  · assumption
+  · cases h
+
+theorem checkPause_ok {p : Params} {s y : S} (h : checkPause p s = .ok y) :
+    (match p.pauseBefore with | .bool _ => true | .other _ => false) = true := by
+  simp only [checkPause] at h; split at h
+  · cases h
+  · rename_i hb; simp [hb]
+
+theorem checkRetry_ok {p : Params} {s y : S} (h : checkRetry p s = .ok y) :
+    (match p.retry with | none => true | some r => r.count.valid && r.delay.valid) = true := by
+  simp only [checkRetry] at h
+  cases hr : p.retry with
+  | none => rfl
+  | some r =>
+    simp only [hr] at h
+    split at h
+    · assumption
+    · cases h
+
+/-- each hook (before or after) that returns normally has passed the type check of its policy -/
+theorem hook_ok_valid (p : Params) (before : Bool) (k : PolicyKind) (s y : S)
+    (h : (if before then beforeOne p k s else afterOne p k s) = .ok y) :
+    (match k with
+     | .pauseBefore => (match p.pauseBefore with | .bool _ => true | .other _ => false)
+     | .waitBefore => p.waitBefore.valid
+     | .waitAfter => p.waitAfter.valid
+     | .failOn => true
+     | .retry => (match p.retry with | none => true | some r => r.count.valid && r.delay.valid)
+     | .timeout => p.timeout.valid
+     | .concurrency => p.concurrency.valid) = true := by
+  cases before <;> cases k <;> simp only [beforeOne, afterOne, Bool.false_eq_true, if_false, if_true] at h
+  all_goals first
+    | rfl
+    | exact check_ok h
+    | exact checkPause_ok h
+    | exact checkRetry_ok h
+    | (obtain ⟨z, hz, _⟩ := bind_ok h; first | exact check_ok hz | exact checkPause_ok hz | exact checkRetry_ok hz)
+
+theorem beforeAll_ok_wellTyped (p : Params) (s y : S) (h : beforeAll p s = .ok y) : p.wellTyped = true := by
+  have hu : beforeAll p s = (beforeOne p .pauseBefore s).bind fun s => (beforeOne p .waitBefore s).bind fun s =>
+      (beforeOne p .waitAfter s).bind fun s => (beforeOne p .failOn s).bind fun s => (beforeOne p .retry s).bind fun s =>
+      (beforeOne p .timeout s).bind fun s => (beforeOne p .concurrency s).bind fun s => .ok s := rfl
+  rw [hu] at h
+  obtain ⟨z1, h1, h⟩ := bind_ok h
+  obtain ⟨z2, h2, h⟩ := bind_ok h
+  obtain ⟨z3, h3, h⟩ := bind_ok h
+  obtain ⟨z4, _, h⟩ := bind_ok h
+  obtain ⟨z5, h5, h⟩ := bind_ok h
+  obtain ⟨z6, h6, h⟩ := bind_ok h
+  obtain ⟨z7, h7, _⟩ := bind_ok h
+  have a1 := hook_ok_valid p true .pauseBefore _ _ h1
+  have a2 := hook_ok_valid p true .waitBefore _ _ h2
+  have a3 := hook_ok_valid p true .waitAfter _ _ h3
+  have a5 := hook_ok_valid p true .retry _ _ h5
+  have a6 := hook_ok_valid p true .timeout _ _ h6
+  have a7 := hook_ok_valid p true .concurrency _ _ h7
+  simp only [] at a1 a2 a3 a5 a6 a7
+  simp only [Params.wellTyped, a2, a3, a6, a7, Bool.and_eq_true, Bool.true_and, true_and]
+  exact ⟨a1, a5⟩
+
+theorem afterAll_ok_wellTyped (p : Params) (s y : S) (h : afterAll p s = .ok y) : p.wellTyped = true := by
+  rw [afterAll_unfold] at h
+  obtain ⟨z1, h1, h⟩ := bind_ok h
+  obtain ⟨z2, h2, h⟩ := bind_ok h
+  obtain ⟨z3, h3, h⟩ := bind_ok h
+  obtain ⟨z4, _, h⟩ := bind_ok h
+  obtain ⟨z5, h5, h⟩ := bind_ok h
+  obtain ⟨z6, h6, h⟩ := bind_ok h
+  obtain ⟨z7, h7, _⟩ := bind_ok h
+  have a1 := hook_ok_valid p false .pauseBefore _ _ h1
+  have a2 := hook_ok_valid p false .waitBefore _ _ h2
+  have a3 := hook_ok_valid p false .waitAfter _ _ h3
+  have a5 := hook_ok_valid p false .retry _ _ h5
+  have a6 := hook_ok_valid p false .timeout _ _ h6
+  have a7 := hook_ok_valid p false .concurrency _ _ h7
+  simp only [] at a1 a2 a3 a5 a6 a7
+  simp only [Params.wellTyped, a2, a3, a6, a7, Bool.and_eq_true, Bool.true_and, true_and]
+  exact ⟨a1, a5⟩
+
+
+
+def pauseStep (p : Params) (x : S) : S :=
+  if p.pauseBefore.truthy then { x with st := .idle, msg := .pauseBefore, wf := pauseWf x.wf } else x
+
+def waitBeforeStep (p : Params) (x : S) : S :=
+  if p.waitBefore.nat = 0 then x
+  else if x.wbSkip then { x with st := .running, msg := .none }
+  else if x.st ≠ .idle then schedule { x with wbSkip := true, st := .delayed, msg := .waitBefore } .cont p.waitBefore.nat
+  else x
+
+def timeoutStep (p : Params) (x : S) : S :=
+  if p.timeout.nat = 0 then x else schedule x .timeout p.timeout.nat
+
+/-- ORDER-DEPENDENT closed form of the `before_task_start` pass for well-typed parameters:
+    pause-before, then wait-before, then the timeout timer. -/
+theorem beforeAll_wellTyped (p : Params) (hw : p.wellTyped = true) (x : S) :
+    beforeAll p x = .ok (timeoutStep p (waitBeforeStep p (pauseStep p x))) := by
+  have hu : beforeAll p x = (beforeOne p .pauseBefore x).bind fun s => (beforeOne p .waitBefore s).bind fun s =>
+      (beforeOne p .waitAfter s).bind fun s => (beforeOne p .failOn s).bind fun s => (beforeOne p .retry s).bind fun s =>
+      (beforeOne p .timeout s).bind fun s => (beforeOne p .concurrency s).bind fun s => .ok s := rfl
+  rw [hu]
+  simp only [Params.wellTyped, Bool.and_eq_true] at hw
+  obtain ⟨⟨⟨⟨⟨h1, h2⟩, h3⟩, h4⟩, h5⟩, h6⟩ := hw
+  have e1 : ∀ s, beforeOne p .pauseBefore s = .ok (pauseStep p s) := by
+    intro s
+    cases hp : p.pauseBefore with
+    | other t => simp [hp] at h5
+    | bool b => cases b <;> simp [beforeOne, checkPause, hp, R.bind, pauseStep, PBool.truthy]
+  have e2 : ∀ s, beforeOne p .waitBefore s = .ok (waitBeforeStep p s) := by
+    intro s; simp only [beforeOne, check, h1, if_true, R.bind, waitBeforeStep]
+    (repeat' split) <;> rfl
+  have e3 : ∀ s, beforeOne p .waitAfter s = .ok s := by intro s; simp [beforeOne, check, h2]
+  have e4 : ∀ s, beforeOne p .failOn s = .ok s := by intro s; rfl
+  have e5 : ∀ s, beforeOne p .retry s = .ok s := by
+    intro s; simp only [beforeOne, checkRetry]
+    cases hr : p.retry with
+    | none => rfl
+    | some r => simp only [hr] at h6; simp [h6]
+  have e6 : ∀ s, beforeOne p .timeout s = .ok (timeoutStep p s) := by
+    intro s; simp only [beforeOne, check, h3, if_true, R.bind, timeoutStep]; split <;> rfl
+  have e7 : ∀ s, beforeOne p .concurrency s = .ok s := by intro s; simp [beforeOne, check, h4]
+  simp only [e1, e2, e3, e4, e5, e6, e7, R.bind]
+
+theorem timeoutStep_fields (p : Params) (x : S) :
+    (timeoutStep p x).st = x.st ∧ (timeoutStep p x).msg = x.msg ∧ (timeoutStep p x).wf = x.wf ∧
+    (timeoutStep p x).acts = x.acts ∧ (timeoutStep p x).wbSkip = x.wbSkip ∧ contJobs (timeoutStep p x) = contJobs x ∧
+    (∀ j ∈ x.jobs, j ∈ (timeoutStep p x).jobs) ∧ (timeoutStep p x).pendingExisting = x.pendingExisting ∧
+    (timeoutStep p x).crashes = x.crashes := by
+  simp only [timeoutStep]
+  split
+  · exact ⟨rfl, rfl, rfl, rfl, rfl, rfl, fun _ h => h, rfl, rfl⟩
+  · refine ⟨rfl, rfl, rfl, rfl, rfl, by simp [contJobs, schedule, List.countP_append, isCont], ?_, rfl, rfl⟩
+    intro j hj; simp [schedule, hj]
+
+/-- an ill-typed parameter: the start pass raises -/
+theorem beforeAll_illTyped (p : Params) (hw : p.wellTyped = false) (x : S) : ∃ y, beforeAll p x = .raise y := by
+  cases hr : beforeAll p x with
+  | raise y => exact ⟨y, rfl⟩
+  | ok y => have := beforeAll_ok_wellTyped p x y hr; rw [hw] at this; cases this
+
+
+
+theorem runHooks_crashes (f : PolicyKind → S → R) (hf : ∀ k s, (f k s).state.crashes = s.crashes)
+    (ks : List PolicyKind) (s : S) : (runHooks f ks s).state.crashes = s.crashes := by
+  induction ks generalizing s with
+  | nil => rfl
+  | cons k ks ih =>
+    simp only [runHooks]
+    have h1 := hf k s
+    cases h : f k s with
+    | ok s1 => rw [h] at h1; simp only [R.state] at h1; simp only [R.bind]; rw [ih s1, h1]
+    | raise s1 => rw [h] at h1; simpa [R.bind] using h1
+
+theorem beforeOne_crashes (p : Params) (k : PolicyKind) (s : S) : (beforeOne p k s).state.crashes = s.crashes := by
+  cases k <;> simp only [beforeOne, check, checkPause, checkRetry]
+  all_goals (repeat' (first | split | simp only [R.bind]))
+  all_goals rfl
+
+theorem afterOne_crashes (p : Params) (k : PolicyKind) (s : S) : (afterOne p k s).state.crashes = s.crashes := by
+  cases k <;> simp only [afterOne, check, checkPause, checkRetry]
+  all_goals (repeat' (first | split | simp only [R.bind]))
+  all_goals rfl
+
+theorem completeTask_crashes (p : Params) (s : S) (st : TSt) (m : Msg) : (completeTask p s st m).crashes = s.crashes := by
+  simp only [completeTask]
+  split
+  · rfl
+  · have h := runHooks_crashes (afterOne p) (afterOne_crashes p) Gen.PolicyOrder.order { s with st := st, msg := m }
+    change (afterAll p { s with st := st, msg := m }).state.crashes = _ at h
+    cases hr : afterAll p { s with st := st, msg := m } with
+    | raise s2 => rw [hr] at h; simp only [R.state] at h; simpa [forceFail] using h
+    | ok s2 =>
+      rw [hr] at h; simp only [R.state] at h
+      simp only []
+      (repeat' split) <;> simpa using h
+
+theorem launch_crashes (p : Params) (s : S) (hx : p.execTimeoutRaises = false) : (launch p s).crashes = s.crashes := by
+  simp only [launch]
+  have h := runHooks_crashes (beforeOne p) (beforeOne_crashes p) Gen.PolicyOrder.order { s with st := .running }
+  change (beforeAll p { s with st := .running }).state.crashes = _ at h
+  cases hr : beforeAll p { s with st := .running } with
+  | raise s2 => rw [hr] at h; simp only [R.state] at h; simpa [forceFail] using h
+  | ok s2 =>
+    rw [hr] at h; simp only [R.state] at h
+    simp only [scheduleAction, hx]
+    split <;> simpa using h
+
+theorem step_crashes (p : Params) (s : S) (e : Ev) (hx : p.execTimeoutRaises = false) :
+    (step p s e).crashes = s.crashes := by
+  cases e with
+  | startNew =>
+    simp only [step, startNew]
+    split
+    · split
+      · exact launch_crashes p _ hx
+      · rfl
+    · rfl
+  | startExisting =>
+    simp only [step]
+    by_cases hpe : s.pendingExisting = true
+    · by_cases hs : s.st = .success
+      · simp [startExisting, hpe, hs]
+      · by_cases hr : s.st = .running ∧ s.msg = .none
+        · simp [startExisting, hpe, hs, hx, hr, scheduleAction, setRunningExisting]
+        · simp [startExisting, hpe, hs, hx, hr, scheduleAction, setRunningExisting]
+    · simp [startExisting, hpe]
+  | result i o c b =>
+    simp only [step, result]
+    split
+    · rfl
+    · split
+      · rfl
+      · rw [completeTask_crashes]
+  | fire idx =>
+    simp only [step, fire]
+    split
+    · rfl
+    · split
+      · rfl
+      · split
+        · simp [continueTask, scheduleAction, hx]
+        · rw [completeTask_crashes]
+        · split
+          · rfl
+          · rw [completeTask_crashes]
+  | tick dt => rfl
+  | resume => simp only [step, resume]; (repeat' split) <;> rfl
+  | wfDone => simp only [step]; split <;> rfl
+
+theorem run_crashes (p : Params) (hx : p.execTimeoutRaises = false) (evs : List Ev) (s : S) :
+    (run p s evs).crashes = s.crashes := by
+  induction evs generalizing s with
+  | nil => rfl
+  | cons e es ih => simp only [run, List.foldl] at ih ⊢; rw [ih, step_crashes p s e hx]
+
+
 end Mistral.Policy
